@@ -38,6 +38,7 @@ def zoo():
     z["local_of_other_function"] = Program([families.T, Func("f", [], "int", [Let("secret", "int", I(5)), Ret(V("secret"))]),
                                             Func("main", [], "int", [Println(V("secret")), Ret(I(0))])])
     z["global_named_like_libc_function"] = Program([families.T, Func("main", [], "int", [Println(V("log")), Ret(I(0))])], globals_=[("log", "int", False, I(3))])
+    z["map_clear"] = P([Let("m", "HashMap<int, int>", Call("map_new")), Ex(Call("map_put", V("m"), I(1), I(2))), Ex(Call("map_clear", V("m"))), Println(Call("map_size", V("m")))])
     z["string_less_than"] = P([Println(Bin("<", S("a"), S("b")))])
     z["deep_recursion_1000"] = P([Println(Call("down", I(1000)))], [Func("down", [("n", "int")], "int", [If(Bin("<=", V("n"), I(0)), [Ret(I(0))], []), Ret(Bin("+", I(1), Call("down", Bin("-", V("n"), I(1)))))])])
     z["deep_recursion_5000"] = P([Println(Call("down", I(5000)))], [Func("down", [("n", "int")], "int", [If(Bin("<=", V("n"), I(0)), [Ret(I(0))], []), Ret(Bin("+", I(1), Call("down", Bin("-", V("n"), I(1)))))])])
@@ -99,8 +100,13 @@ def run(ctx):
     fams = families.all_families()
     for k in sorted(fams)[:: (2 if ctx.tier == "quick" else 1)]:
         progs["fam_" + k] = fams[k]
+    for k in sorted(fams):
+        if k.startswith("reuse_"):               # name-reuse programs: typing of a name depends on finding the right binder
+            progs["fam_" + k] = fams[k]
     for k in range(20 if ctx.tier == "quick" else 250):
         progs["gen_%d_%d" % (ctx.seed, k)] = Gen(ctx.seed * 4000037 + k).program()
+    for k in range(8 if ctx.tier == "quick" else 80):
+        progs["genmap_%d_%d" % (ctx.seed, k)] = Gen(ctx.seed * 4000037 + 500000 + k, features={"maps": True}).program()
     # the C05 mutants: those the real checker accepts although NanoType rejects them are C04 subjects as well
     _, allm = c05.build_mutants(ctx, 2 if ctx.tier == "quick" else 6)
     for mid, m in allm.items():
